@@ -4,5 +4,9 @@
 // license that can be found in the LICENSE file or at
 // https://opensource.org/licenses/MIT.
 
+// Verification hooks (only under `cargo kani`, which sets cfg(kani)).
+#![cfg_attr(kani, feature(allocator_api))]
+#![cfg_attr(kani, recursion_limit = "512")]
+
 pub mod find;
 pub mod xargs;
